@@ -53,6 +53,17 @@ def run_case(c):
                                     .cross_correlation(tau_max=tm, lag_mode="all")))
     put("knn_aff", lambda: [enc.arr(CouplingAnalysis(d, silence_level=3).mutual_information(
         tau_max=0, estimator="knn", knn=2, lag_mode="all")) for d in (None,)] if False else [])
+    # surrogate test matrices (the arrays are [index, time]); surrogate j = twice series j+1, advanced one step
+    from pyunicorn.timeseries import Surrogates
+    base = np.array(c["data"], dtype=float)
+    orig = np.ascontiguousarray(base.T)
+    surr = np.ascontiguousarray(2.0 * np.roll(np.roll(base, -1, axis=0), -1, axis=1).T)
+    put("tpear", lambda: enc.arr(Surrogates.test_pearson_correlation(orig.copy(), surr.copy())))
+    if max(orig.max(), surr.max()) > min(orig.min(), surr.min()):
+        put("tmi2", lambda: enc.arr(Surrogates.test_mutual_information(orig.copy(), surr.copy(), n_bins=2)))
+        put("tmi4", lambda: enc.arr(Surrogates.test_mutual_information(orig.copy(), surr.copy(), n_bins=4)))
+    for key in ("tpear", "tmi2", "tmi4"):
+        o.setdefault(key, [[0] * 3] * 3)
     for key in ("all", "maxv", "maxl", "symv", "syml", "gauss", "pure0", "tsonis", "spearman", "all_aff", "all_perm"):
         o.setdefault(key, [])
     rec["obs"] = o
